@@ -755,6 +755,10 @@ def _run_ho_field(case):
     except Exception as err:
         return {"violations": [], "skipped": f"fibre fields refused: {type(err).__name__}", "fingerprint": "refused", "nontrivial": False, "transitions": 0}
     matU = make_law("HolzapfelOgden", dim)
+    # ... and the same non-unit directions assigned through the public attributes of a law constructed with other (unit) directions
+    matS = Models.HyperElastic.HolzapfelOgden(dim, T1=T2.copy(), T2=T1.copy(), **par)
+    matS.T1 = 1.2 * T1
+    matS.T2 = 0.7 * T2
     S = _bulk_states(dim, Xe)
     s0 = float(np.abs(_np(matU.Compute_d2Wde(state_of(g0, np.zeros(nel * Xe.shape[1] * dim))))).max())
     for name in ("zero", "inhA", "homF1"):
@@ -762,16 +766,18 @@ def _run_ho_field(case):
             continue
         u = _vec(S[name])
         for nm, fn in (("W", "Compute_W"), ("S", "Compute_dWde"), ("D", "Compute_d2Wde")):
-            a = _np(getattr(matF, fn)(state_of(g0, u)))
             b = _np(getattr(matU, fn)(state_of(g0, u)))
-            ntr += 2
-            sc = s0 if nm != "W" else s0
-            err = float(np.abs(a - b).max()) if a.shape == b.shape else np.inf
-            obs.append(float(np.abs(b).max()))
-            if err > 1e-10 * sc:
-                v.append(viol("fibre_field", f"HolzapfelOgden {et} at {name}: {nm} with fibre fields of non-unit vectors differs from {nm} with the same uniform unit "
-                                             f"directions by {err:.3e} (scale {sc:.3e})" + ("; the reference configuration is not energy/stress free" if name == "zero" else ""),
-                              quantity=nm, state=name, **key))
+            for how, mat in (("field", matF), ("setter", matS)):
+                a = _np(getattr(mat, fn)(state_of(g0, u)))
+                ntr += 2
+                sc = s0 if nm != "W" else s0
+                err = float(np.abs(a - b).max()) if a.shape == b.shape else np.inf
+                obs.append(float(np.abs(b).max()))
+                if err > 1e-10 * sc:
+                    what = "fibre fields of non-unit vectors" if how == "field" else "non-unit fibre directions assigned through mat.T1 / mat.T2"
+                    v.append(viol("fibre_field", f"HolzapfelOgden {et} at {name}: {nm} with {what} differs from {nm} with the same uniform unit "
+                                                 f"directions by {err:.3e} (scale {sc:.3e})" + ("; the reference configuration is not energy/stress free" if name == "zero" else ""),
+                                  quantity=nm, state=name, **dict(key, fibres=how)))
     return {"violations": _cap(v), "fingerprint": fp("ho_field", et, np.array(obs)), "nontrivial": True, "transitions": ntr, "outcome": "ok" if not v else "violation"}
 
 
